@@ -64,9 +64,15 @@ class RegexCompiler:
 
         return self.bytecode
 
+    # Counted quantifiers are unrolled, so a{1000000} or nested counts would
+    # otherwise build programs of unbounded size (and never finish compiling)
+    MAX_PROGRAM_SIZE = 100000
+
     def _emit(self, opcode: Op, *args) -> int:
         """Emit an instruction and return its index."""
         idx = len(self.bytecode)
+        if idx >= self.MAX_PROGRAM_SIZE:
+            raise RegExpError("Regular expression too large")
         self.bytecode.append((opcode, *args))
         return idx
 
